@@ -76,7 +76,29 @@ def payloads(trip_path):
     p_sys = "__import__('os').system('touch %s')" % trip_path
     p_sys_ns = "__import__('os').system('touch '+chr(47).join(%r))" % (parts,)
     p_sub = "__import__('subprocess').Popen(['touch',%r]).wait()" % trip_path
+    ws_free_list = repr(parts).replace(" ", "")
+    p_open_tight = "open(chr(47).join(%s),'w').close()" % ws_free_list
+    p_open_tight_slash = "open(%r,'w').close()" % trip_path
     out = {
+        # the deprecated text form of a definition is split on '\n' and each line is stripped; a type-name line may
+        # hold carriage returns (a line break for the Python tokenizer) and inner blanks, a field line is split on
+        # whitespace: these payloads survive that treatment
+        "cr": [
+            "x(Record):\r    pass\r%s\rclass y" % p_open_ns,
+            "x(Record):\r\tpass\r%s\rclass\ty" % p_open_tight,
+            "x(Record):pass\r%s\rclass y" % p_sys_ns,
+            "x(%s or Record):#" % p_open_ns,
+            "x([%s]and(Record)):#" % p_open_tight,
+            "x(Record):\f\r    pass\r%s\rclass y" % p_open_ns,
+            "x(Record):\x0b\r pass\r%s\rclass y" % p_open_tight,
+        ],
+        "nows": [
+            "class.type,'q':[%s]and(_field_class)" % p_open_tight_slash,
+            "class.type,'q':[%s]and(_field_class)" % p_sys.replace("touch ", "touch'+chr(32)+'"),
+            "x(Record):pass;%s" % p_open_tight,
+            "x=[%s]" % p_open_tight_slash,
+            "x;%s;y" % p_open_tight_slash,
+        ],
         "class": [
             "x(Record):\n    pass\n%s\nclass y" % p_open_ns,
             "x(Record): pass\n%s\nclass y" % p_sys_ns,
